@@ -298,7 +298,14 @@ func ComplexArbitraryToFixedPointCRT(r *ring.Ring, values []*bignum.Complex, sca
 
 func BigFloatToFixedPointCRT(r *ring.Ring, values []*big.Float, scale *big.Float, coeffs [][]uint64) {
 
-	prec := values[0].Prec()
+	// Working precision: the precision of the first non-nil value (nil values are read as zero)
+	var prec uint
+	for _, v := range values {
+		if v != nil {
+			prec = v.Prec()
+			break
+		}
+	}
 
 	xFlo := bignum.NewFloat(0, prec)
 	xInt := new(big.Int)
